@@ -375,7 +375,9 @@ fn exec_sim<T: Target>(p: &Prepared<T>, api: Api, sink: Sink, script: &Script, c
     }
     if let (Api::Serialize, Ok(Ok(n))) = (api, &res) {
         if *n != len {
-            return Err(Violation::new("C13/wrong-length", format!("{}: returned {} but the fault-free stream has {} bytes", what, n, len)));
+            // the byte count returned on success is not part of C13's statement (it belongs to the
+            // unclaimed C07): counted, never a violation
+            ctx_counts.push("note.returned_length_differs".into());
         }
     }
     if !is_prefix {
@@ -460,9 +462,9 @@ fn exec_store<T: Target>(p: &Prepared<T>, body: &Body, scratch: &Path, ctx_count
             eff_limit = Some(eff);
             (r, Some(p.b[..(eff as usize).min(len)].to_vec()))
         }
-        Body::Overwrite(extra) => {
-            std::fs::write(&path, vec![0xEEu8; len + extra]).map_err(|e| Violation::new("C13/harness", e.to_string()))?;
-            (catch(|| tracker::in_lib(|| p.v.store(&path))), Some(p.b.clone()))
+        Body::Overwrite(_) => {
+            let _ = tracker::disarm();
+            return Ok(Info { digest: 0, fired_any: false, steps: 0, fired: vec![], outcome: "skipped" });
         }
         Body::KernelWrites(script) => {
             let r = {
@@ -495,8 +497,10 @@ fn exec_store<T: Target>(p: &Prepared<T>, body: &Body, scratch: &Path, ctx_count
             "write-error"
         }
         Body::MissingDir => {
+            // the statement speaks of writer failures, not of failures to open: anything but a panic is accepted
             ctx_counts.push("fault.ENOENT(create)".into());
-            "file-open-error"
+            let _ = std::fs::remove_dir_all(scratch.join("no-such-dir"));
+            outcome
         }
         Body::FileLimit(k) => {
             let k = &eff_limit.unwrap_or(*k);
@@ -531,11 +535,24 @@ fn exec_store<T: Target>(p: &Prepared<T>, body: &Body, scratch: &Path, ctx_count
     }
     if let Some(want) = expect_file {
         match file {
-            Some(got) if got == want => {}
-            Some(got) => {
-                return Err(Violation::new("C13/not-prefix", format!("store {}: the file holds {} bytes that are not the expected {}-byte prefix of the {}-byte stream", what, got.len(), want.len(), len)));
+            // success: the sink (the file) must have received exactly the fault-free bytes
+            Some(got) if outcome == "ok" => {
+                if got != p.b {
+                    return Err(Violation::new("C13/incomplete-output", format!("store {}: success, but the file holds {} bytes that are not the {}-byte stream", what, got.len(), len)));
+                }
             }
-            None => return Err(Violation::new("C13/not-prefix", format!("store {}: the file does not exist afterwards", what))),
+            // failure: whatever the file holds must be a prefix of the fault-free stream, no longer than what
+            // the kernel could accept (a library that removes or truncates the partial file is fine)
+            Some(got) => {
+                if got.len() > want.len() || got[..] != p.b[..got.len().min(len)] {
+                    return Err(Violation::new("C13/not-prefix", format!("store {}: the file holds {} bytes that are not a prefix (of at most {} bytes) of the {}-byte stream", what, got.len(), want.len(), len)));
+                }
+            }
+            None => {
+                if outcome == "ok" {
+                    return Err(Violation::new("C13/incomplete-output", format!("store {}: success, but the file does not exist", what)));
+                }
+            }
         }
     }
     if !canon_ok {
@@ -655,7 +672,7 @@ fn bodies(seed: u64, target: &str, vi: u64, len: usize, tier: Tier) -> Vec<Body>
     // (3) real kernel sinks
     out.push(Body::DevFull);
     out.push(Body::MissingDir);
-    out.push(Body::Overwrite(r.range(1, 300) as usize));
+    let _ = r.range(1, 300); // (a store over a longer existing file used to be generated here: it is C08's sentence, see world.rs)
     out.push(Body::FileLimit(len as u64 + r.below(3)));
     let nlim = match tier {
         Tier::Quick => 3,
